@@ -300,6 +300,13 @@ def naming_cases(chk, root):
          {'c.prophy': 'struct C { u8 c; };\nconst K = 3;\n', 'b.prophy': '#include "c.prophy"\nstruct B { C c; };\n',
           'a.prophy': '#include "b.prophy"\nstruct A { B b; C c[K]; u16 e; };\n'},
          'struct C { u8 c; };\nconst K = 3;\nstruct B { C c; };\nstruct A { B b; C c[K]; u16 e; };\n', 'a', 'A', ['python', 'cpp']),
+        ('file names with a dot in the stem',
+         {'proto.types.prophy': 'struct Hdr { u16 k; u8 t; };\nconst MAX = 4;\n', 'proto.msgs.prophy': '#include "proto.types.prophy"\nstruct Msg { Hdr h; u32 x[MAX]; };\n',
+          'main.prophy': '#include "proto.types.prophy"\n#include "proto.msgs.prophy"\nstruct Top { Hdr h; Msg m; u8 z; };\n'},
+         'struct Hdr { u16 k; u8 t; };\nconst MAX = 4;\nstruct Msg { Hdr h; u32 x[MAX]; };\nstruct Top { Hdr h; Msg m; u8 z; };\n', 'main', 'Top', ['cpp']),
+        ('file names differing in a dash / its escape sequence (header guards, D170)',
+         {'msg-base.prophy': 'struct Bb { u8 b; };\n', 'msg_x2D_base.prophy': '#include "msg-base.prophy"\nstruct Ee { Bb b; u16 e; };\n'},
+         'struct Bb { u8 b; };\nstruct Ee { Bb b; u16 e; };\n', 'msg_x2D_base', 'Ee', ['cpp']),
         ('two files of one base name',
          {'common/types.prophy': 'struct P { u64 p; };\n', 'net/types.prophy': 'struct Q { u16 q; };\n',
           'app.prophy': '#include "common/types.prophy"\n#include "net/types.prophy"\nstruct A { P p; Q q; u8 z; };\n'},
@@ -481,6 +488,26 @@ def collision_cases(chk, root):
          {'r/c.prophy': '#include "d.prophy"\nstruct C { D d; };\n', 'r/d.prophy': 'struct D { u8 x; };\n', 'r/e.prophy': '#include "c.prophy"\nstruct E { C c; };\n',
           'l/d.prophy': 'struct D { u64 x; u64 y; };\n', 'l/c.prophy': '->../r/c.prophy'},
          ['l/c.prophy', 'r/e.prophy'], ['--cpp_out', '@O']),
+        ('an ordinary file included by a linked file; its own include exists next to the link and in an -I directory',
+         {'real/a.prophy': '#include "r.prophy"\nstruct A { R r; };\n', 'real/r.prophy': '#include "c.prophy"\nstruct R { u8 x[R_LEN]; };\n',
+          'links/a.prophy': '->../real/a.prophy', 'links/c.prophy': 'const R_LEN = 9;\n', 'inc/c.prophy': 'const R_LEN = 3;\n'},
+         ['links/a.prophy', 'real/r.prophy'], ['-I', '@D/inc', '--python_out', '@O']),
+        ('a file used through a link and directly; its include exists next to the link and in an -I directory (D167)',
+         {'real/target.prophy': '#include "x.prophy"\nstruct T { W w; };\n', 'dir/link.prophy': '->../real/target.prophy',
+          'dir/x.prophy': 'typedef u8 W;\n', 'inc/x.prophy': 'typedef u64 W;\n',
+          'a.prophy': '#include "dir/link.prophy"\nstruct A { T t; };\n', 'b.prophy': '#include "real/target.prophy"\nstruct B { T t; };\n'},
+         ['a.prophy', 'b.prophy'], ['-I', '@D/inc', '--cpp_out', '@O', '--python_out', '@O']),
+        ('the same, the include exists next to the link only',
+         {'real/target.prophy': '#include "x.prophy"\nstruct T { W w; };\n', 'dir/link.prophy': '->../real/target.prophy',
+          'dir/x.prophy': 'typedef u8 W;\n',
+          'a.prophy': '#include "dir/link.prophy"\nstruct A { T t; };\n', 'b.prophy': '#include "real/target.prophy"\nstruct B { T t; };\n'},
+         ['a.prophy', 'b.prophy'], ['--python_out', '@O']),
+        ('an output that cannot be written: a directory named b.py (D168)',
+         {'a.prophy': 'struct A { u8 a; };\n', 'b.prophy': 'struct B { u8 b; };\n', 'out/b.py/keep': ''},
+         ['a.prophy', 'b.prophy'], ['--cpp_out', '@O', '--python_out', '@O']),
+        ('a chain of 120 includes and its lower half (D171)',
+         dict(('c%d.prophy' % k, ('#include "c%d.prophy"\n' % (k + 1) if k < 119 else '') + 'struct S%d { u8 x; };\n' % k) for k in range(120)),
+         ['c0.prophy', 'c60.prophy'], ['--python_out', '@O']),
         ('one input the C++ full generator refuses', {'good.prophy': 'struct Good { u8 a; };\n', 'two.prophy': 'struct Two { u8 n; u8 a<@n>; u16 b<@n>; };\n'},
          ['good.prophy', 'two.prophy'], ['--python_out', '@O', '--cpp_full_out', '@O']),
     ]
@@ -496,9 +523,21 @@ def collision_cases(chk, root):
                 with open(os.path.join(cd, n), 'w') as f:
                     f.write(t)
             out = os.path.join(cd, 'out')
-            os.makedirs(out)
-            rc, so, se = run_cli([a.replace('@O', out) for a in outs] + [os.path.join(cd, n) for n in order], cd)
+            os.makedirs(out, exist_ok=True)
+            rc, so, se = run_cli([a.replace('@O', out).replace('@D', cd) for a in outs] + [os.path.join(cd, n) for n in order], cd)
             results.append((rc, tree_hash(out), sorted(os.listdir(out))))
+            if oi == 0 and rc == 0:
+                # compiling one file never changes what is generated for another: each input alone gives the same files
+                for n in inputs:
+                    alone = os.path.join(cd, 'alone_' + os.path.splitext(os.path.basename(n))[0])
+                    os.makedirs(alone)
+                    rca, _, sea = run_cli([a.replace('@O', alone).replace('@D', cd) for a in outs] + [os.path.join(cd, n)], cd)
+                    differing = [fn for fn in sorted(os.listdir(alone)) if rca == 0 and fn.startswith(os.path.splitext(os.path.basename(n))[0] + '.')
+                                 and os.path.exists(os.path.join(out, fn)) and open(os.path.join(out, fn), 'rb').read() != open(os.path.join(alone, fn), 'rb').read()]
+                    if rca != 0 or differing:
+                        chk.property_violation({'kind': kind, 'files': files, 'inputs': inputs, 'alone': n},
+                                               {'what': 'what is generated for %s depends on the files compiled with it' % n, 'differing': differing,
+                                                'rc_alone': rca, 'stderr': sea[:200]})
         casej = {'kind': kind, 'files': files, 'inputs': inputs}
         chk.count(('collision', kind), True)
         chk.bump('collision:' + kind)
